@@ -196,7 +196,8 @@ pub fn gen_c16(rng: &mut Rng, thorough: bool) -> Vec<Tagged> {
             }
         }
         spec.weights = Some(ws);
-        spec.skipacc = *rng.pick(&ALL_ACCS);
+        // every (architecture, accumulation) combination is visited, not left to chance
+        spec.skipacc = ALL_ACCS[(r / 3) % ALL_ACCS.len()];
         // one to three connections with distinct targets; sources may or may not be distinct
         let nc = rng.range(1, 3.min(depth - 1).max(1));
         let mut targets: Vec<usize> = (1..depth).collect();
